@@ -43,13 +43,11 @@ const (
 	avoidThis     = "this_assign"
 	avoidBreakIf  = "break_in_if"
 	avoidStrIndex = "str_index_oob"
-	avoidIdxSlice = "index_then_slice"
-	avoidShared   = defsem.CornerSharedText // decided by the reference unless avoided: then refused, counted
-	avoidCompDef  = defsem.CornerCompRedef
+	avoidCompDef  = defsem.CornerCompRedef // decided by the reference unless avoided: then refused, counted
 	avoidBigSum   = defsem.CornerBigSum
 )
 
-var genSwitches = []string{avoidThis, avoidBreakIf, avoidStrIndex, avoidIdxSlice, avoidShared}
+var genSwitches = []string{avoidThis, avoidBreakIf, avoidStrIndex}
 
 type Step struct {
 	Prog  *gen.Node `json:"prog"`
@@ -91,10 +89,6 @@ func classTags(p *gen.Node) []string {
 		case "break", "continue":
 			if inIf && loop > 0 {
 				tags[avoidBreakIf] = true
-			}
-		case "slice", "setslice":
-			if gen.EndsInIndex(n.Kids[0]) {
-				tags[avoidIdxSlice] = true
 			}
 		}
 		switch n.K {
@@ -154,7 +148,7 @@ func refCfg(c vmx.Cfg, s *rt.Section) defsem.Config {
 	cfg := defsem.Config{IgnoreDiv0: c.IgnoreDiv0, Mode: c.Mode, Fate: c.Fate, Refuse: map[string]bool{}}
 	// corners of open findings that only the reference can recognise (they depend on run-time
 	// aliasing): refused while the finding is open; the exclusion is counted when one is met
-	for _, corner := range []string{avoidShared, avoidCompDef, avoidBigSum} {
+	for _, corner := range []string{avoidCompDef, avoidBigSum} {
 		if avoidOn != nil && avoidOn(corner) {
 			cfg.Refuse[corner] = true
 		}
@@ -431,7 +425,6 @@ func seqOpts(cfg vmx.Cfg, s *rt.Section, thorough bool) gen.Opts {
 	o.ThisAssign = !av[avoidThis]
 	o.BreakInIf = !av[avoidBreakIf]
 	o.StrIndexOOB = !av[avoidStrIndex]
-	o.IndexThenSlice = !av[avoidIdxSlice]
 	o.Avoid = func(name string) bool { return av[name] }
 	return o
 }
